@@ -753,3 +753,84 @@ CFP = Unit('C07', 'taurex.model.simplemodel:SimpleForwardModel.collect_fitting_p
            doc='the parameters a retrieval can fit: the union over the model itself, planet, star (when present), pressure, temperature, '
                'chemistry and every contribution, each component asked once in that order, a later component winning a name clash '
                '(0..2 contributions)')
+
+
+# ------------------------------------------------------------------ Fittable.add_fittable_param: how a component registers a parameter
+def _af_params(c):
+    held = c.choice('held')
+    if c.mode == 'conc':
+        return dict(self=dict(__obj__='Fittable'), param_name=c.choice('name'))
+    entry = lambda n: (n, 'tex_' + n, AbsObj('BoundMethod', ('get', n), {}), AbsObj('BoundMethod', ('set', n), {}), 'linear', False, (c.real('lo_' + n), c.real('hi_' + n)))
+    return dict(self=ObjSpec('Fittable', _param_dict={n: entry(n) for n in held}, _derived_dict={}),
+                param_name=c.choice('name'), param_latex='tex_new', fget=AbsObj('Function', 'fget', {}), fset=AbsObj('Function', 'fset', {}),
+                default_mode=c.choice('mode'), default_fit=c.choice('fit'), default_bounds=(c.real('lo'), c.real('hi')))
+
+
+def _h_af_bind(ex, st, o, args, kwargs, node):
+    """function.__get__(obj): the method bound to that object"""
+    return AbsObj('BoundMethod', (o.ident, args[0].id if isinstance(args[0], Ref) else args[0]), {})
+
+
+def _af_fx(c):
+    return c.fixed if c.mode != 'conc' else c.values
+
+
+def _af_raises(c, v):
+    fx = _af_fx(c)
+    return {'AttributeError': fx['name'] in fx['held']}
+
+
+def _af_post(c, v0, v1, r):
+    fx = _af_fx(c)
+    if c.mode == 'conc':
+        got = c.values['__after__']
+        return {'one_new_entry_under_its_name_others_untouched': got['keys'] == list(fx['held']) + [fx['name']] and got['others_same'],
+                'entry_holds_what_was_given_with_accessors_bound_to_this_object': got['entry_ok']}
+    heap = c.raw['state'].heap
+    me = c.raw['env']['self']
+    d0 = heap0 = None
+    d1 = heap[heap[me.id].attrs['_param_dict'].id].items
+    keys_ok = list(d1) == list(fx['held']) + [fx['name']]
+    d = {'one_new_entry_under_its_name_others_untouched': keys_ok and all(d1[n][0] == n and d1[n][1] == 'tex_' + n and d1[n][2].ident == ('get', n) for n in fx['held'])}
+    if keys_ok:
+        e = d1[fx['name']]
+        d['entry_holds_what_was_given_with_accessors_bound_to_this_object'] = (
+            e[0] == fx['name'] and e[1] == 'tex_new' and isinstance(e[2], AbsObj) and e[2].ident == ('fget', me.id) and isinstance(e[3], AbsObj)
+            and e[3].ident == ('fset', me.id) and e[4] == fx['mode'] and e[5] == fx['fit'] and isinstance(e[6], tuple)
+            and e[6][0].eq(z3.Real('lo')) and e[6][1].eq(z3.Real('hi')))
+    return d
+
+
+def _af_native(c, p):
+    from taurex.data.fittable import Fittable
+    fx = c.values
+
+    class K(Fittable):
+        def __init__(self):
+            self._param_dict, self._derived_dict = {}, {}
+    o = K()
+    marks = {}
+    for n in fx['held']:
+        marks[n] = (n, 'tex_' + n, object(), object(), 'linear', False, (0.0, 1.0))
+        o._param_dict[n] = marks[n]
+
+    def fget(self):
+        return ('get', id(self))
+
+    def fset(self, v):
+        return ('set', id(self), v)
+    o.add_fittable_param(fx['name'], 'tex_new', fget, fset, fx['mode'], fx['fit'], (1.5, 2.5))
+    e = o._param_dict[fx['name']]
+    c.values['__after__'] = dict(keys=list(o._param_dict), others_same=all(o._param_dict[n] is marks[n] for n in fx['held']),
+                                 entry_ok=(e[0] == fx['name'] and e[1] == 'tex_new' and e[2]() == ('get', id(o)) and e[3](7) == ('set', id(o), 7)
+                                           and e[4] == fx['mode'] and e[5] == fx['fit'] and tuple(e[6]) == (1.5, 2.5)))
+    return None, p
+
+
+_AF_CASES = [dict(held=h, name=n, mode=m, fit=f) for h in ((), ('T',), ('T', 'R')) for n in ('T', 'X') for m, f in (('linear', False), ('log', True))]
+AFP = Unit('C07', 'taurex.data.fittable:Fittable.add_fittable_param', _af_params, raises=_af_raises, post=_af_post, cases=_AF_CASES, bounds=[{}],
+           abstract={'Function.__get__': _h_af_bind}, native=_af_native, gen=lambda rng: dict(rng.choice(_AF_CASES)), frame_attrs=[('self', '_param_dict')],
+           short='Fittable.add_fittable_param',
+           doc='how a component registers a fitting parameter: a name already registered is an error; otherwise exactly one new entry under that '
+               'name -- (name, latex, getter and setter bound to THIS object, mode, fit flag, bounds) as given -- after the existing entries, '
+               'which stay as they are (function.__get__ abstract)')
